@@ -32,7 +32,7 @@ Definition bit_spec (a i : Z) : Z := bit a i.
 Definition range_spec (hi lo a : Z) : Z := (a / 2 ^ lo) mod 2 ^ (hi - lo + 1).
 Definition bits_lsbf_spec (w a : Z) : list Z := map (bit a) (seqZ 0 w).          (* element i = bit i *)
 Definition bits_msbf_spec (w a : Z) : list Z := map (fun i => bit a (w - 1 - i)) (seqZ 0 w).   (* element 0 = MSB *)
-Definition repeat_spec (w i : Z) : Z := if i =? 0 then 0 else 2 ^ w - 1.
+Definition replicate_spec (w i : Z) : Z := if i =? 0 then 0 else 2 ^ w - 1.
 Definition bufenable_spec (w a en : Z) : Z := if en =? 0 then 0 else a mod 2 ^ w.
 
 (* concatenation of (width, value) items.  MSBF: the first item is the most significant;
